@@ -23,6 +23,7 @@ Expressions (tuples):
   ('agg', kind, spelling, e)   kind in COUNT MIN MAX SUM AVG VARIANCE MEDIAN ARRAY_AGG ANY_VALUE; e may be ('star',None) for COUNT(*)
   ('star', None|'a'|'b')
   ('unnest', e)
+  ('unpack', e)          *e / ...e : the elements of a list become that many output fields (documented: `SELECT *a1.split(':')`)
   ('alias', e, name, as_spelling)
   ('call', fname, e...)  opaque call with commas, only for header tests, e.g. ('call','max', ...) not evaluated by C07
   ('paren', e)
@@ -215,9 +216,15 @@ def render_expr(e, lang, sp):
         arg = e[3]
         if arg[0] == 'star':
             return '%s(*)' % name
+        if len(e) > 4:
+            # ARRAY_AGG's documented second argument: a callback applied to the aggregated list
+            cb = {'sorted_top2': ('lambda v: sorted(v)[:2]', 'v => v.sort().slice(0, 2)'), 'count': ('lambda v: len(v)', 'v => v.length'), 'joined': ("lambda v: '|'.join(v)", "v => v.join('|')")}[e[4]]
+            return '%s(%s, %s)' % (name, R(arg), cb[0] if lang == 'py' else cb[1])
         return '%s(%s)' % (name, R(arg))
     if k == 'star':
         return '*' if e[1] is None else e[1] + '.*'
+    if k == 'unpack':
+        return ('*%s' if lang == 'py' else '...%s') % R(e[1])
     if k == 'unnest':
         return '%s(%s)' % (e[2] if len(e) > 2 else 'UNNEST', R(e[1]))
     if k == 'alias':
@@ -495,6 +502,11 @@ def eval_items(items, env):
                 out.extend(env.a)
             else:
                 out.extend(env.b)
+        elif it[0] == 'unpack':
+            vals = ev(it[1], env)
+            if not isinstance(vals, (list, tuple)):
+                raise TypeError('unpack of a non-list')
+            out.extend(vals)
         elif it[0] == 'unnest':
             vals = ev(it[1], env)
             vals = list(vals)     # must be iterable
@@ -755,7 +767,11 @@ def _evaluate(q, A, B, a_names, b_names):
             for col, it in enumerate(items):
                 s = strip_alias(it)
                 if s[0] == 'agg':
-                    row.append(agg_final(s[1], g[col]))
+                    v_ = agg_final(s[1], g[col])
+                    if len(s) > 4:
+                        _need(all(isinstance(x, str) for x in v_))      # text values only: sorting / joining mean the same in both languages
+                        v_ = {'sorted_top2': lambda v: sorted(v)[:2], 'count': len, 'joined': lambda v: '|'.join(v)}[s[4]](v_)
+                    row.append(v_)
                 else:
                     row.append(g[col][0])
             out.append(row)
